@@ -118,16 +118,22 @@ impl Simplifier {
             Expression::FunctionCall(FunctionCallExpression {
                 function: _,
                 expression,
-            }) => 1 + self.size(expression.clone()),
+            }) => self.size(expression.clone()).saturating_add(1),
             Expression::Infix(InfixExpression {
                 left,
                 operator: _,
                 right,
-            }) => 1 + self.size(left.clone()) + self.size(right.clone()),
+            }) => {
+                // Shared subexpressions make the nominal size exponential in the depth
+                // (`%t*%t` substituted into itself 64 times), so it must not overflow.
+                let left = self.size(left.clone());
+                let right = self.size(right.clone());
+                left.saturating_add(right).saturating_add(1)
+            }
             Expression::Prefix(PrefixExpression {
                 operator: _,
                 expression,
-            }) => 1 + self.size(expression.clone()),
+            }) => self.size(expression.clone()).saturating_add(1),
         };
 
         self.size_cache.insert(expr, result);
